@@ -59,7 +59,7 @@ func c04Round3Action(e *c04Env, me tss.MemberID, d c04Dealer) (complaints []type
 
 // VerifC04RunBody: a complete group creation through the real msg server and the real EndBlocker, every member
 // following the protocol except (optionally) one dealer that corrupts the share of one recipient. Submission
-// order within each round is a rotation chosen by forking; polynomials, one-time keys, nonces are symbolic.
+// order (the same rotation of the member list in every round) is chosen by forking; polynomials, one-time keys, nonces are symbolic.
 //
 //	nobody deviates  => every message accepted, ACTIVE, group key = image of the sum of the constant terms, every
 //	                    member key = image of the sum of its shares, nobody malicious, completed-callback once;
@@ -78,11 +78,11 @@ func VerifC04RunBody(endBlock func(ctx sdk.Context, k *Keeper) error) {
 	for m := range dealers {
 		dealers[m] = c04NewDealer(t)
 	}
-	for j := 0; j < t; j++ {
-		for m := 1; m <= n; m++ { // every partial sum of commitments is a finite point
+	for j := 0; j < t; j++ { // every partial sum of commitments (any subset of dealers) is a finite point
+		for mask := 1; mask < 1<<n; mask++ {
 			in := make([]bool, n)
-			for i := 0; i < m; i++ {
-				in[i] = true
+			for i := 0; i < n; i++ {
+				in[i] = mask&(1<<i) != 0
 			}
 			vs.Assume(c04SumCoeff(dealers, in, j).Validate() == nil)
 		}
@@ -93,8 +93,8 @@ func VerifC04RunBody(endBlock func(ctx sdk.Context, k *Keeper) error) {
 	cheater := tss.MemberID(vs.Pick("cheater", n+1)) // 0: nobody
 	victim := cheater%tss.MemberID(n) + 1
 	status := func() types.GroupStatus { return e.k.MustGetGroup(e.ctx, 1).Status }
+	first := vs.Pick("first_submitter", n) // the same rotation in every round
 	order := func(label string) []int {
-		first := vs.Pick(label, n)
 		var o []int
 		for i := 0; i < n; i++ {
 			o = append(o, (first+i)%n)
@@ -139,6 +139,7 @@ func VerifC04RunBody(endBlock func(ctx sdk.Context, k *Keeper) error) {
 		}
 		_, err = e.ms.SubmitDKGRound2(e.ctx, types.NewMsgSubmitDKGRound2(1, types.NewRound2Info(id, encs), c04Addr(m).String()))
 		vs.Assert("run-round2-accepted", err == nil)
+		vs.Assert("run-queued-iff-round-complete", (len(e.k.GetPendingProcessGroups(e.ctx)) == 1) == (i == n-1))
 		if i < n-1 {
 			vs.Assert("run-end-block-ok", endBlock(e.ctx, e.k) == nil)
 			vs.Assert("run-round2-waits-for-everybody", status() == types.GROUP_STATUS_ROUND_2)
@@ -160,6 +161,7 @@ func VerifC04RunBody(endBlock func(ctx sdk.Context, k *Keeper) error) {
 			_, err = e.ms.Confirm(e.ctx, types.NewMsgConfirm(1, id, sig, c04Addr(m).String()))
 		}
 		vs.Assert("run-round3-accepted", err == nil)
+		vs.Assert("run-queued-iff-round-complete", (len(e.k.GetPendingProcessGroups(e.ctx)) == 1) == (i == n-1))
 		if i < n-1 {
 			vs.Assert("run-end-block-ok", endBlock(e.ctx, e.k) == nil)
 			vs.Assert("run-round3-waits-for-everybody", status() == types.GROUP_STATUS_ROUND_3)
